@@ -1,12 +1,20 @@
 #!/usr/bin/env python3
-"""tools/mkseed.py <Cxx> [n]: scratch worktree /tmp/seed/<Cxx>/repo of /repo HEAD + PROMPT.md holding ONLY the property text
+"""tools/mkseed.py <Cxx> [n] [first k]: scratch worktree /tmp/seed/<Cxx>/repo of /repo HEAD + PROMPT.md holding ONLY the property text
 and the task for an independent 'breaker' sub-agent (nothing from /verif's machinery)."""
 import json, os, subprocess, sys
 pid = sys.argv[1]; n = int(sys.argv[2]) if len(sys.argv) > 2 else 3
+start = int(sys.argv[3]) if len(sys.argv) > 3 else 1
+ks = ", ".join(str(k) for k in range(start, start + n))
 root = "/tmp/seed/%s" % pid
 os.makedirs(root, exist_ok=True)
 if not os.path.isdir(root + "/repo"):
     subprocess.check_call(["git", "-C", "/repo", "worktree", "add", "-q", "--detach", root + "/repo", "HEAD"])
+import glob
+taken = []
+for m in sorted(glob.glob("/verif/seeded/%s-*/meta.json" % pid)):
+    d = json.load(open(m)); pd = os.path.dirname(m)
+    files = sorted({l[6:].strip() for l in open(pd + "/patch.diff") if l.startswith("+++ b/")})
+    taken.append("- %s: %s" % (", ".join(files), d.get("needs", "")[:200]))
 prop = [json.loads(l) for l in open("/verif/properties.jsonl") if l.strip() and json.loads(l)["id"] == pid][0]
 txt = f"""# Task: break one semantic property of openmeeg with a subtle change
 
@@ -46,8 +54,9 @@ worktree, touching the library/apps sources — not the tests, not the build sys
    each look fine alone — NOT something that ordinary use or the sample data would expose at once.
 
 Make the {n} changes diverse: different files / mechanisms / clauses of the property statement.
+{("Changes of this kind were already produced by others - yours must be DIFFERENT in mechanism and, where possible, in the clause of the property they break (file touched: what it needs to manifest):" + chr(10) + chr(10).join(taken)) if taken else ""}
 
-For each change k = 1..{n} write into `{root}/out/k/`:
+Number your changes k = {ks}. For each change k write into `{root}/out/k/`:
 * `patch.diff` — `git diff` of the change against the unchanged worktree (apply-able with `git apply`),
 * a **demonstration**: a small self-contained C++ program `demo.cpp` (linking the built library; give the exact
   compile command in `README.md`) or a shell script `demo.sh` driving the built command-line tools, that **exits 0 on the
